@@ -73,7 +73,19 @@ def work(task):
             todo = [ob for ob in todo if opts["only"] in ob.name]
         brep = None
         n_unknown = 0
+        # opt-in per contract (Contract.opts): its own solver budget, and a cap on the number of undecided obligations after
+        # which the rest of the function is reported undecided without being attempted (a collapsed proof, e.g. of changed
+        # code, must not cost minutes per obligation)
+        cop = CONTRACTS[key].opts if kind == "function" else {}
+        if cop.get("timeout_ms") and not opts.get("timeout_override"):
+            opts = dict(opts, timeout_ms=cop["timeout_ms"])
+        max_unknown = cop.get("max_unknown")
         for ob in todo:
+            if max_unknown is not None and n_unknown >= max_unknown and ob.kind != "vacuity":
+                out["obligations"].append({"name": ob.name, "id": stable_id(ob.name), "kind": ob.kind, "status": "unknown", "backend": "",
+                                           "time_s": 0.0, "line": ob.line,
+                                           "note": f"not attempted: {max_unknown} obligations of this function are already undecided"})
+                continue
             # the command-line back ends (cvc5, z3 4.8) are a fallback for the odd unstable query, not for a
             # function whose proof has collapsed: at most 2 fallbacks per function and run
             verify.solve_obligation(ob, timeout_ms=opts.get("timeout_ms", 10000),
@@ -113,6 +125,18 @@ def work(task):
             out["obligations"].append(rec)
         if kind != "lemma" and shard == 0 and opts.get("native_tries", 0) > 0:
             out["search"] = replay.search(CONTRACTS[key], opts.get("seed", 0), opts["native_tries"])
+        vac_open = [r for r in out["obligations"] if r["kind"] == "vacuity" and r["status"] == "unknown"]
+        if vac_open and kind != "lemma":
+            # the solver could not produce a model of the (quantified) precondition in time: a concrete input that satisfies
+            # the executable reading of `requires` is a witness of satisfiability too (and does not depend on solver load)
+            srch = out.get("search")
+            if not (srch and srch.get("admissible", 0) > 0):
+                srch = replay.search(CONTRACTS[key], opts.get("seed", 0), 400)
+            if srch and srch.get("admissible", 0) > 0:
+                for r in vac_open:
+                    r["status"] = "discharged"
+                    r["backend"] = "native witness (an input satisfying the executable precondition)"
+                    r["note"] = f"requires is satisfiable: {srch['admissible']} generated inputs satisfy it"
     except Exception:
         out["error"] = ["crash", traceback.format_exc()[-3000:]]
     out["wall_s"] = round(time.time() - t0, 3)
@@ -185,6 +209,7 @@ def main(argv=None):
             "replay_tries": 3000 if tier == "quick" else 30000, "only": a.only, "no_cli": a.no_cli}
     if a.timeout:
         opts["timeout_ms"] = a.timeout
+        opts["timeout_override"] = True
     if a.only or a.fn:
         opts["native_tries"] = 0
         a.no_evidence = True
